@@ -20,7 +20,7 @@ import (
 //
 //	child A  every (sample, format) pair three times in a row in ONE process      first / rep1 / rep2
 //	child B  every pair once, in reverse order, in a SECOND process                other
-//	child C  every pair twice, shuffled, on 8 goroutines in a THIRD process        conc
+//	child C  every pair by each of 8 goroutines (own order, nothing shared) in a THIRD process   conc
 //
 // and all hashes of a pair must be equal: state that survives from one decode of a format to the
 // next (a package-level hasher, cache, scratch buffer) shows as first != rep1, order dependence as
@@ -119,6 +119,37 @@ func sweepPairs(r *hlib.Rand, capPerFormat int) map[string][]string {
 	return out
 }
 
+// minimizeRace bisects a list of pairs whose concurrent decoding (child C) produced a race report
+func minimizeRace(ps []pair, light bool) []pair {
+	var env []string
+	if light {
+		env = append(env, "C18_SWEEP_LIGHT=1")
+	}
+	races := func(q []pair) bool {
+		c := child("sweepC", 0, sweepStdin(q), 10*time.Minute, env...)
+		return violationOf(c) != ""
+	}
+	for len(ps) > 1 {
+		h := len(ps) / 2
+		switch {
+		case races(ps[:h]):
+			ps = ps[:h]
+		case races(ps[h:]):
+			ps = ps[h:]
+		default:
+			return ps // needs pairs of both halves
+		}
+	}
+	return ps
+}
+
+func fmtName(key string) string {
+	if i := strings.IndexByte(key, '#'); i >= 0 {
+		return key[:i]
+	}
+	return key
+}
+
 func sweepStdin(ps []pair) string {
 	var sb strings.Builder
 	for _, p := range ps {
@@ -128,7 +159,11 @@ func sweepStdin(ps []pair) string {
 }
 
 // runSweep runs the three children on the pairs and writes one case line per format
-func runSweep(o *hlib.Out, byFormat map[string][]string) {
+func runSweep(o *hlib.Out, byFormat map[string][]string) { runSweepOpts(o, byFormat, false) }
+
+// runSweepOpts: a key of byFormat is a format name, optionally followed by `#label` (several case lines for
+// one format); light = without the second-process child B
+func runSweepOpts(o *hlib.Out, byFormat map[string][]string, light bool) {
 	var formats []string
 	for f := range byFormat {
 		formats = append(formats, f)
@@ -137,7 +172,7 @@ func runSweep(o *hlib.Out, byFormat map[string][]string) {
 	var ps []pair
 	for _, f := range formats {
 		for _, p := range byFormat[f] {
-			ps = append(ps, pair{p, f})
+			ps = append(ps, pair{p, fmtName(f)})
 		}
 	}
 	rev := make([]pair, len(ps))
@@ -155,10 +190,17 @@ func runSweep(o *hlib.Out, byFormat map[string][]string) {
 		mode string
 		ps   []pair
 	}{{"sweepA", ps}, {"sweepB", rev}, {"sweepC", ps}} {
+		if light && m.mode == "sweepB" {
+			continue
+		}
 		wg.Add(1)
 		go func() {
 			defer wg.Done()
-			c := child(m.mode, 0, sweepStdin(m.ps), 20*time.Minute)
+			var env []string
+			if light {
+				env = append(env, "C18_SWEEP_LIGHT=1")
+			}
+			c := child(m.mode, 0, sweepStdin(m.ps), 20*time.Minute, env...)
 			mu.Lock()
 			res[m.mode] = cr{c, m.ps}
 			mu.Unlock()
@@ -168,8 +210,25 @@ func runSweep(o *hlib.Out, byFormat map[string][]string) {
 	all := "sweep-all " + fmt.Sprint(len(ps)) + "-decodes-of " + strings.Join(formats, ",")
 	toks := map[pair][]string{}
 	for _, mode := range []string{"sweepA", "sweepB", "sweepC"} {
-		r := res[mode]
+		r, ok := res[mode]
+		if !ok {
+			continue
+		}
 		if v := violationOf(r.c); v != "" {
+			if mode == "sweepC" {
+				// narrow the race down to few pairs so that the replay line is small and exact
+				min := minimizeRace(r.ps, light)
+				same := true
+				var paths []string
+				for _, p := range min {
+					same = same && p.format == min[0].format
+					paths = append(paths, p.path)
+				}
+				if same && len(min) > 0 && len(min) <= 64 {
+					o.Verdict("PROPFAIL", "sweep "+min[0].format+" "+strings.Join(paths, " ")+" ## concurrent decodes: "+v)
+					continue
+				}
+			}
 			o.Verdict("PROPFAIL", all+" ## "+mode+": "+v)
 			if w := os.Getenv("VERIF_WORK"); w != "" {
 				_ = os.WriteFile(filepath.Join(w, "race_"+mode+".txt"), []byte(r.c.stderr), 0o644)
@@ -195,7 +254,7 @@ func runSweep(o *hlib.Out, byFormat map[string][]string) {
 		var obs []string
 		seq := 0
 		for k, p := range byFormat[f] {
-			for _, t := range toks[pair{p, f}] {
+			for _, t := range toks[pair{p, fmtName(f)}] {
 				mh := strings.Fields(t)
 				obs = append(obs, fmt.Sprintf("%s:%d:%s", mh[0], k, mh[1]))
 				if mh[0] == "first" || strings.HasPrefix(mh[0], "rep") {
@@ -206,9 +265,9 @@ func runSweep(o *hlib.Out, byFormat map[string][]string) {
 		if len(obs) == 0 {
 			continue // a child failed; already reported
 		}
-		o.Case("sweep "+f+" "+strings.Join(byFormat[f], " "), strings.Join(obs, " "))
+		o.Case("sweep "+fmtName(f)+" "+strings.Join(byFormat[f], " "), strings.Join(obs, " "))
 		o.Class("sweep " + f)
-		o.Stat("seqfmt_"+f, seq)
+		o.Stat("seqfmt_"+fmtName(f), seq)
 		o.Stat("sweep_samples", len(byFormat[f]))
 	}
 	o.Stat("sweep_formats", len(formats))
@@ -238,40 +297,64 @@ func sweepWorker(w *bufio.Writer, mode string) {
 			fmt.Fprintf(w, "H other %d %s\n", k, decodeTree(j, data[k]))
 		}
 	case "sweepC":
-		r := hlib.NewRand(0xc18c)
-		var list []int
-		for rep := 0; rep < 2; rep++ {
-			for k := range jobs {
-				list = append(list, k)
+		// every goroutine decodes EVERY pair, each in its own order, and keeps its results to itself: no
+		// channel, lock or shared buffer between the decodes, so that the race detector sees two decodes of
+		// the same format on different goroutines without a happens-before edge between them
+		const G = 8
+		res := make([][]string, G)
+		// pass 1, in rounds: all goroutines decode the SAME pair at the same time (a barrier between the
+		// rounds orders round i before round i+1, the G decodes inside a round are unordered)
+		for k := range jobs {
+			var rw sync.WaitGroup
+			go1 := make(chan struct{})
+			for g := 0; g < G; g++ {
+				rw.Add(1)
+				go func() {
+					defer rw.Done()
+					<-go1
+					res[g] = append(res[g], fmt.Sprintf("H conc %d %s", k, decodeTree(jobs[k], data[k])))
+				}()
 			}
+			close(go1)
+			rw.Wait()
 		}
-		for i := len(list) - 1; i > 0; i-- {
-			k := r.Intn(i + 1)
-			list[i], list[k] = list[k], list[i]
+		if os.Getenv("C18_SWEEP_LIGHT") != "" {
+			for _, rs := range res {
+				for _, l := range rs {
+					fmt.Fprintln(w, l)
+				}
+			}
+			break
 		}
-		ch := make(chan int, len(list))
-		for _, k := range list {
-			ch <- k
-		}
-		close(ch)
+		// pass 2, free running: different pairs (and formats) overlap
 		start := make(chan struct{})
-		var mu sync.Mutex
 		var wg sync.WaitGroup
-		for g := 0; g < 8; g++ {
+		for g := 0; g < G; g++ {
 			wg.Add(1)
 			go func() {
 				defer wg.Done()
+				r := hlib.NewRand(0xc18c + uint64(g))
+				order := make([]int, len(jobs))
+				for i := range order {
+					order[i] = i
+				}
+				for i := len(order) - 1; i > 0; i-- {
+					k := r.Intn(i + 1)
+					order[i], order[k] = order[k], order[i]
+				}
 				<-start
-				for k := range ch {
-					h := decodeTree(jobs[k], data[k])
-					mu.Lock()
-					fmt.Fprintf(w, "H conc %d %s\n", k, h)
-					mu.Unlock()
+				for _, k := range order {
+					res[g] = append(res[g], fmt.Sprintf("H conc %d %s", k, decodeTree(jobs[k], data[k])))
 				}
 			}()
 		}
 		close(start)
 		wg.Wait()
+		for _, rs := range res {
+			for _, l := range rs {
+				fmt.Fprintln(w, l)
+			}
+		}
 	}
 	fmt.Fprintln(w, "DONE")
 }
